@@ -72,11 +72,29 @@ def match_known(prop, v, known):
     return None
 
 
+def _complete_facts(sc):
+    """witnesses written before a field was added to the harness' Fact struct: give the missing fields their zero value"""
+    import grl
+    zero = dict((k, v) for k, v in grl.fact()[2][2])
+    order = [k for k, _ in grl.FACT_FIELDS]
+    for o in sc.get("ops", []) if isinstance(sc, dict) else []:
+        fl = [o["facts"]] if o.get("facts") else []
+        fl += o.get("factsList") or []
+        for facts in fl:
+            for root in facts:
+                node = root[1]
+                if isinstance(node, list) and node[:2] == ["ptr", "Fact"] and node[2] and node[2][0] == "struct":
+                    have = dict((k, v) for k, v in node[2][2])
+                    if set(have) != set(order):
+                        node[2][2] = [[k, have.get(k, zero[k])] for k in order]
+    return sc
+
+
 def corpus(prop):
     out = []
     for p in sorted(glob.glob(os.path.join(ROOT, "corpus", prop, "*.json"))):
         try:
-            out.append(json.load(open(p)))
+            out.append(_complete_facts(json.load(open(p))))
         except Exception:
             pass
     return out
